@@ -1,12 +1,14 @@
 //! Sequential ADT drivers (B3 behaviour replay) — DESIGN.md §7.3.
 mod c13;
 mod c14;
+mod c40;
 
 fn main() {
     let a: Vec<String> = std::env::args().collect();
     let cmd = a.get(1).map(|s| s.as_str()).unwrap_or("");
     match cmd {
         "c14" => c14::main(),
+        "c40" => c40::main(),
         "c13" => c13::main(),
         _ => {
             eprintln!("usage: vadt <c14|c13|c40|c42> [options]");
